@@ -655,3 +655,25 @@ pub proof fn lemma_miller_decomp_big(pv: nat, low: u64, s: u32)
 }
 
 } // verus!
+verus! {
+/// Miller decomposition of an odd multiword p: p - 1 = d 2^s with s the number of trailing zeros of p - 1 and d = p >> s odd
+pub proof fn lemma_miller_decomp_full(pv: nat, s: u32)
+    requires pv % 2 == 1, pv >= 3, (pv - 1) as nat % pow2(s as nat) == 0, (((pv - 1) as nat) / pow2(s as nat)) % 2 == 1,
+    ensures
+        s >= 1,
+        (pv - 1) as nat == (pv / pow2(s as nat)) * pow2(s as nat),
+        pv / pow2(s as nat) > 0, (pv / pow2(s as nat)) % 2 == 1,
+{
+    let m = (pv - 1) as nat;
+    let ps = pow2(s as nat);
+    lemma_pow2_pos(s as nat);
+    lemma2_to64();
+    if s == 0 { assert(m / 1 == m); assert(false); }
+    lemma_pow2_unfold(s as nat);
+    lemma_fundamental_div_mod(m as int, ps as int);
+    let d = m / ps;
+    // pv = d ps + 1 with 1 < ps: pv / ps == d
+    lemma_mul_comm(ps as int, d as int);
+    lemma_fundamental_div_mod_converse(pv as int, ps as int, d as int, 1);
+}
+} // verus!
